@@ -863,3 +863,84 @@ func c04ScriptedSlowFetchFromServer(e *Env) {
 		e.Violate("C04.R1", "body-differs:scripted-slow-fetch", "the %d blocks add up to %d bytes, the handler supplied %d", nBlocks, len(got), len(want))
 	}
 }
+
+// c04ScriptedUploadAtDeadline: an upload that runs into the deadline of its call. The request that Do keeps for the
+// block-wise layer expires with that deadline - by the clock, which is an instant earlier than the moment the call
+// itself notices that its context has ended. A 2.31 of the peer that arrives in between finds no request to continue.
+// Whatever becomes of it, it is not the result of the upload: the exchange did not complete, the call has to end with
+// an error. (The call is held just before it starts to wait, so that the 2.31 can arrive in that instant; when it goes
+// on, its context is done and - if the library handed the 2.31 on - a result is waiting as well: which of the two the
+// runtime's select takes is not the tape's to decide, the run is marked racy.)
+func c04ScriptedUploadAtDeadline(e *Env) {
+	t := e.Tape
+	tr := []string{TrUDP, TrDTLS}[t.Choose(2)]
+	szx := blockwise.SZX(t.Choose(2))
+	bs := 16 << uint(szx)
+	router := mux.NewRouter()
+	router.DefaultHandle(mux.HandlerFunc(func(mux.ResponseWriter, *mux.Message) {}))
+	w := c04World(e, tr, szx, router)
+	if w == nil {
+		return
+	}
+	body := Body(411, 2*bs+3)
+	var first *WMsg
+	w.OnRecv = func(m *WMsg) {
+		if m.Code == 2 && first == nil {
+			first = m
+			// the peer acknowledges block 0 at once and answers later
+			it := w.Queue(&WMsg{Type: TACK, Code: 0, MID: m.MID}, "empty-ack")
+			it.NoDup, it.NoDrop = true, true
+		}
+	}
+	e.EnablePark("udp.doInternal.beforeWait", 0)
+	call := e.NewCall("upload", 0, nil, 10*time.Second)
+	e.Start(call, func(ctx context.Context) (*pool.Message, error) {
+		return w.API.(mux.Conn).Post(ctx, "/up", message.AppOctets, bytes.NewReader(body))
+	}, w.API.ReleaseMessage)
+	for i := 0; i < 3; i++ {
+		e.Wait()
+		w.Pump()
+		for _, it := range append([]*OutItem(nil), w.Outbox...) {
+			w.Emit(it, false)
+			e.Wait()
+			w.Pump()
+		}
+		w.prune()
+	}
+	held := e.Parked()
+	if first == nil || len(held) != 1 {
+		e.Probe("uploadAtDeadline.notArmed")
+		for _, pg := range held {
+			e.Resume(pg)
+		}
+		e.Wait()
+		return
+	}
+	e.NonTrivial()
+	// the deadline passes while the call is held; the peer's 2.31 for block 0 arrives a moment later
+	e.Sleep(call.Deadline - e.Now() + time.Millisecond)
+	b1, _ := first.OptUint(OptBlock1)
+	it := w.Queue(&WMsg{Type: TNON, Code: 0x5f, MID: w.NextPeerMID(), Token: first.Token, Opts: []WOpt{UintOpt(OptBlock1, b1)}}, "continue (late)")
+	it.NoDup, it.NoDrop = true, true
+	w.Emit(it, false)
+	e.Wait()
+	w.Pump()
+	e.Probe("uploadAtDeadline.continueArrivesInTheInstantOfTheDeadline")
+	e.MarkRacy()
+	e.Resume(held[0])
+	for i := 0; i < 3; i++ {
+		e.Wait()
+		w.Pump()
+	}
+	if !call.Done() {
+		e.Violate("C04.R5", "transfer-hangs:scripted-upload-at-deadline", "the upload has not returned after its deadline")
+		return
+	}
+	if ri, err := call.Result(); err == nil {
+		code := byte(0)
+		if ri != nil {
+			code = ri.Code
+		}
+		e.Violate("C04.R5", "ended-with-continue-as-its-result:scripted-upload-at-deadline", "the upload ran into its deadline after block 0 of %d bytes; the call returned code %d.%02d and no error", len(body), code>>5, code&31)
+	}
+}
